@@ -13,6 +13,7 @@
  *   run <dyn> <mSub> <iterMax> <ppolicy> <aa> <ni> <minTs> <maxTs> <minF> <maxF> <nt> time*nt <na> (kind factor at)*na
  *        runs GenericSolver::execute with injected failures, then replays the accepted steps only on a
  *        fresh copy of the initial state, dumps both final states
+ *   runs <ns> <nm> <dyn> ... (as run)   the same on a study made of <ns> structures, each with <nm> model states
  */
 #include <cmath>
 #include <iostream>
@@ -429,7 +430,7 @@ static std::shared_ptr<mtest::AccelerationAlgorithm> make_aa(const std::string& 
   return a;
 }
 
-static std::string op_run(Tokens& tk) {
+static std::string op_run(Tokens& tk, const unsigned ns = 1, const unsigned nm = 1) {
   struct Raw {
     Raw() { g_raw = true; }
     ~Raw() { g_raw = false; }
@@ -463,9 +464,9 @@ static std::string op_run(Tokens& tk) {
     script.push_back(a);
   }
   // two identical initial worlds (clean state: every field tagged, then `revert`)
-  auto mk = [ni]() {
+  auto mk = [ni, ns, nm]() {
     auto w = std::make_unique<World>();
-    w->build(1, ni, 1, 3);
+    w->build(ns, ni, nm, 3);
     double k = 1;
     w->visit(w->st, [&k](const char*, auto& f, const char*) {
       set_tag(f, k);
@@ -563,6 +564,10 @@ int main() {
         ans = op_rv(tk);
       } else if (op == "run") {
         ans = op_run(tk);
+      } else if (op == "runs") {
+        const auto ns = static_cast<unsigned>(tk.integer());
+        const auto nm = static_cast<unsigned>(tk.integer());
+        ans = op_run(tk, ns, nm);
       } else {
         ans = "bad-op";
       }
